@@ -49,7 +49,24 @@ where
     H: std::hash::BuildHasher,
 {
     let seen = Vec::new();
-    expand_recursive::<SI, H>(f, r, seen, if_missing)
+    expand_recursive::<SI, H>(f, r, seen, if_missing, true)
+}
+
+/// Like `expand()`, but escaped references (`\${...}`) stay escaped.
+///
+/// This is for the early pass over the yaml files: its result is expanded again later, so
+/// un-escaping here would let the later pass expand what was meant to be literal text.
+pub fn expand_keep_escapes<SI, H>(
+    f: SI,
+    r: &HashMap<&String, String, H>,
+    if_missing: IfMissing,
+) -> Result<String, ExpandError>
+where
+    SI: AsRef<str>,
+    H: std::hash::BuildHasher,
+{
+    let seen = Vec::new();
+    expand_recursive::<SI, H>(f, r, seen, if_missing, false)
 }
 
 pub fn expand_eval<SI, H>(
@@ -63,7 +80,7 @@ where
 {
     use crate::nested_env::Eval;
     let seen = Vec::new();
-    Ok(expand_recursive::<SI, H>(f, r, seen, if_missing)?
+    Ok(expand_recursive::<SI, H>(f, r, seen, if_missing, true)?
         .eval()
         .map_err(ExpandError::Expr))?
 }
@@ -73,6 +90,7 @@ fn expand_recursive<'a, SI, H>(
     r: &HashMap<&String, String, H>,
     seen: Vec<&'a str>,
     if_missing: IfMissing,
+    unescape: bool,
 ) -> Result<String, ExpandError>
 where
     SI: 'a + AsRef<str>,
@@ -139,7 +157,9 @@ where
         seen.push(key_);
 
         match r.get(key_) {
-            Some(val) => result.push_str(expand_recursive(val, r, seen, if_missing)?.as_ref()),
+            Some(val) => {
+                result.push_str(expand_recursive(val, r, seen, if_missing, unescape)?.as_ref())
+            }
             None => match if_missing {
                 IfMissing::Error => return Err(ExpandError::Missing(key.into())),
                 IfMissing::Ignore => {
@@ -158,7 +178,7 @@ where
         result.push_str(&f[cursor..]);
     }
 
-    if escapes {
+    if escapes && unescape {
         result = result.replace("\\${", "${");
     }
 
